@@ -2,6 +2,7 @@ package http
 
 import (
 	"context"
+	"errors"
 	"fmt"
 	"math/rand"
 	"regexp"
@@ -75,6 +76,11 @@ func (p *http) LightBlock(ctx context.Context, height int64) (*types.LightBlock,
 	sh, err := p.signedHeader(ctx, h)
 	if err != nil {
 		return nil, err
+	}
+
+	// the header is embedded by pointer: an answer without one must not be read through
+	if sh.Header == nil {
+		return nil, provider.ErrBadLightBlock{Reason: errors.New("commit answer carries no header")}
 	}
 
 	if height != 0 && sh.Height != height {
